@@ -38,8 +38,48 @@ func calleeOrigins(call *ssa.Call) []ssa.Value {
 
 // paramOrCellOf: v is parameter par of its function, directly or through the
 // parameter's spill cell / a captured reference to it.
+// standsFor: value o (possibly seen inside nested literals or inside a single-use step helper) is the parameter
+// par: directly, through capture cells, or as the helper's parameter bound to it at the helper's call site.
+func standsFor(o ssa.Value, par *ssa.Parameter, depth int) bool {
+	if o == ssa.Value(par) {
+		return true
+	}
+	if depth > 5 {
+		return false
+	}
+	if u, isU := o.(*ssa.UnOp); isU && u.Op == token.MUL {
+		// a load of a (captured) cell that holds the parameter
+		if al, ok := core.ResolveFree(u.X).(*ssa.Alloc); ok {
+			sts := core.StoresTo(al)
+			return len(sts) == 1 && standsFor(sts[0].Val, par, depth+1)
+		}
+		return false
+	}
+	r := core.ResolveFree(o)
+	if al, ok := r.(*ssa.Alloc); ok {
+		sts := core.StoresTo(al)
+		if len(sts) == 1 {
+			return standsFor(sts[0].Val, par, depth+1)
+		}
+		return false
+	}
+	if r != o {
+		return core.AllOrigins(r, func(o2 ssa.Value) bool { return o2 != o && standsFor(o2, par, depth+1) })
+	}
+	return false
+}
+
 func isParamVal(v ssa.Value, par *ssa.Parameter) bool {
-	return core.AllOrigins(v, func(o ssa.Value) bool { return o == ssa.Value(par) })
+	return core.AllOrigins(v, func(o ssa.Value) bool {
+		if o == ssa.Value(par) {
+			return true
+		}
+		// a parameter of a single-use step helper stands for the argument at its call site
+		if r := core.ResolveFree(o); r != o {
+			return core.AllOrigins(r, func(o2 ssa.Value) bool { return o2 == ssa.Value(par) })
+		}
+		return false
+	})
 }
 
 func c16(c *core.Ctx) {
@@ -191,6 +231,18 @@ func c16(c *core.Ctx) {
 						okArgs = false
 					}
 					a4 := oc.Call.Args[3]
+					// the choice may be made by a step helper of the package (chain(outer, inner)): its returns are the
+					// alternatives, decided where they are returned
+					if hc, isCall := a4.(*ssa.Call); isCall {
+						if h := hc.Call.StaticCallee(); h != nil && h.Blocks != nil && core.PkgIs(h, ".") && core.InlineSite[h] != nil {
+							for _, r := range core.Returns(h) {
+								if len(r.Results) == 1 {
+									alts = append(alts, alt{r.Results[0], r, nil})
+								}
+							}
+							continue
+						}
+					}
 					if phi, isPhi := a4.(*ssa.Phi); isPhi {
 						for i, e := range phi.Edges {
 							pred := phi.Block().Preds[i]
@@ -203,14 +255,7 @@ func c16(c *core.Ctx) {
 				c.Check(okCallee, uk+":callee-is-original", orig.Pos(), "the callee is the Handler field of the input's method entry captured per iteration", "the function called is not the original handler of this entry")
 				c.Check(okArgs, uk+":pass-through", orig.Pos(), "srv, ctx, dec forwarded positionally; results returned unchanged", "srv/ctx/dec are not forwarded positionally or the results are altered")
 				isDecorating := func(v ssa.Value) bool {
-					return core.AllOrigins(v, func(o ssa.Value) bool {
-						r := core.ResolveFree(o)
-						if al, ok := r.(*ssa.Alloc); ok {
-							sts := core.StoresTo(al)
-							return len(sts) == 1 && sts[0].Val == ssa.Value(dec.Params[1])
-						}
-						return r == ssa.Value(dec.Params[1])
-					})
+					return core.AllOrigins(v, func(o ssa.Value) bool { return standsFor(o, dec.Params[1], 0) })
 				}
 				guardedAt := func(a alt, op token.Token) bool {
 					pred := func(f core.Fact) bool {
@@ -257,12 +302,12 @@ func c16(c *core.Ctx) {
 						for _, o := range calleeOrigins(tcall) {
 							if al, ok := o.(*ssa.Alloc); ok {
 								for _, s := range core.StoresTo(al) {
-									if s.Val == ssa.Value(transportPar) {
+									if s.Val == ssa.Value(transportPar) || standsFor(s.Val, transportPar, 0) {
 										isTransport = true
 									}
 								}
 							}
-							if o == ssa.Value(transportPar) {
+							if o == ssa.Value(transportPar) || standsFor(o, transportPar, 0) {
 								isTransport = true
 							}
 						}
@@ -287,12 +332,12 @@ func c16(c *core.Ctx) {
 								// callee: decorating interceptor
 								isDec := false
 								for _, o := range calleeOrigins(hc) {
-									if o == ssa.Value(dec.Params[1]) {
+									if o == ssa.Value(dec.Params[1]) || standsFor(o, dec.Params[1], 0) {
 										isDec = true
 									}
 									if al, ok := o.(*ssa.Alloc); ok {
 										for _, s := range core.StoresTo(al) {
-											if s.Val == ssa.Value(dec.Params[1]) {
+											if s.Val == ssa.Value(dec.Params[1]) || standsFor(s.Val, dec.Params[1], 0) {
 												isDec = true
 											}
 										}
@@ -545,6 +590,9 @@ func c16(c *core.Ctx) {
 			if t1 != grpcPkg+".UnaryServerInterceptor" || t2 != grpcPkg+".StreamServerInterceptor" {
 				continue
 			}
+			if core.InlineSite[fn] != nil {
+				continue // a single-use private constructor step: part of its caller
+			}
 			key := core.FuncName(fn) + ":identity"
 			ok := false
 			for _, r := range core.Returns(fn) {
@@ -580,9 +628,12 @@ func c16(c *core.Ctx) {
 			// matching parameter itself — one decoration level per call, so that nesting gives "outermost first" by
 			// construction (a folded / re-chained view changes the order for one of the two kinds unnoticed)
 			for _, r := range core.Returns(fn) {
-				for _, o := range core.Origins(r.Results[0]) {
+				for _, o := range core.XOrigins(r.Results[0]) {
 					al, isA := core.Strip(o).(*ssa.Alloc)
 					if !isA {
+						continue
+					}
+					if al.Parent() != fn && !(core.InlineSite[al.Parent()] != nil && core.InlineSite[al.Parent()].Parent() == fn) {
 						continue
 					}
 					st, isS := al.Type().Underlying().(*types.Pointer).Elem().Underlying().(*types.Struct)
@@ -605,7 +656,7 @@ func c16(c *core.Ctx) {
 								continue
 							}
 							nStores++
-							isPar := core.AllOrigins(sv.Val, func(v ssa.Value) bool {
+							isPar := core.AllOrigins(core.ResolveFree(sv.Val), func(v ssa.Value) bool {
 								for _, pp := range fn.Params {
 									if core.Strip(v) == ssa.Value(pp) {
 										return true
